@@ -68,13 +68,16 @@ def _canon_crash(rest: str, objs: dict):
 
 
 def _job(job):
-    """one driver process over [lo, hi) of one scenario."""
-    variant, exe, xmlpath, name, lo, hi, stride, cstride, nstep = job
+    """one driver process: shard `shard` of `nshards` of the automatically determined range [0, top) of one scenario."""
+    variant, exe, xmlpath, name, shard, nshards, stride, cstride, nstep = job
     part = core.Part()
     objs = rx.objs_for(variant, exe)
-    res = rx.run([exe, xmlpath, lo, hi, stride, 512, nstep, 251, cstride])
+    res = rx.run([exe, xmlpath, "auto", shard, nshards, stride, nstep, 251, cstride])
     if res.rc != 0:
         raise RuntimeError("driver failed rc=%d: %s" % (res.rc, res.stderr))
+    if shard == 0 and res.tline and variant == "asan":
+        part.add("bytes_swept[%s]" % variant, int(res.tline[1]))
+        part["extra"]["need %s/%s" % (variant, name)] = "maxuse_arena=%s sweep 0..%s" % (res.tline[0], res.tline[1])
     npts = 0
     for cls, n in res.hist.items():
         if cls.startswith("(fresh"):
@@ -134,13 +137,6 @@ def _measure(args):
     return dict(N=int(f[1]), ncon=int(f[2]), nefc=int(f[3]), nisland=int(f[4]))
 
 
-def _top_ok(args):
-    """the last 64 sizes of the planned range must be fault-free (class 'ok,ok'); returns True/False."""
-    exe, xmlpath, hi, nstep = args
-    res = rx.run([exe, xmlpath, hi - 64, hi, 1, 64, nstep, 0, 1])
-    return res.rc == 0 and not res.crashes and not res.viol and set(res.hist) == {",".join(["ok"] * nstep)}
-
-
 def run(ctx):
     nstep = 2
     tmp = tempfile.mkdtemp(prefix="verif_c20_")
@@ -153,51 +149,30 @@ def run(ctx):
             fh.write(xml)
         paths[name] = p
 
-    # 1. fault-free need per scenario and variant, and the top of the sweep
+    # 1. rough size of each scenario (fast production build) to decide the number of shards
     from concurrent.futures import ThreadPoolExecutor
-    plan = []
     with ThreadPoolExecutor(max_workers=core.NCPU) as ex:
-        keys = [(v, name) for v in exes for name, _ in scn]
-        meas = list(ex.map(lambda k: _measure((exes[k[0]], paths[k[1]], nstep)), keys))
-        tops = {}
-        for (v, name), m in zip(keys, meas):
-            tops[(v, name)] = m["N"] + (2048 if v == "asan" else 256)
-        for attempt in range(4):
-            bad = [k for k in keys if k not in plan]
-            oks = list(ex.map(lambda k: _top_ok((exes[k[0]], paths[k[1]], tops[k], nstep)), bad))
-            for k, ok in zip(bad, oks):
-                if ok:
-                    plan.append(k)
-                else:
-                    tops[k] += 4096
-            if len(plan) == len(keys):
-                break
-        else:
-            raise RuntimeError("could not find a fault-free top for %r" % [k for k in keys if k not in plan])
-    info = {("%s/%s" % k): dict(m, top=tops[k]) for k, m in zip(keys, meas)}
+        meas = list(ex.map(lambda nx: _measure((exes["rel"], paths[nx[0]], nstep)), scn))
 
     # 2. the sweep.  Step: every arena allocation has size and alignment a multiple of 4 (int, mjtNum, mjContact, mjcPair)
     # and every non-empty stack begins with an 8-aligned mjStackFrame, so the allocation trace is a function of
     # floor(narena/4); thorough verifies this on the small scenarios by running every byte.
     jobs = []
-    small = 24000
-    for (v, name) in keys:
-        top = tops[(v, name)]
-        stride = 1 if (ctx.thorough and top <= small) else 4
-        cstride = 1 if v == "rel" else ctx.q(8, 4)
-        shard = 2048 * stride
-        for lo in range(0, top, shard):
-            jobs.append((v, exes[v], paths[name], name, lo, min(top, lo + shard), stride, cstride, nstep))
-    # longest first would be nicer, but order must not depend on anything but the seed (pmap rotates)
-    core.pmap(ctx, _chunk, jobs, nchunks=min(len(jobs), core.NCPU * 8))
+    small = 16000
+    for v in exes:
+        for (name, _), m in zip(scn, meas):
+            stride = 1 if (ctx.thorough and m["N"] <= small) else 4
+            cstride = 1 if v == "rel" else ctx.q(8, 4)
+            nshards = max(1, (m["N"] // stride) // 6000)
+            for sh in range(nshards):
+                jobs.append((v, exes[v], paths[name], name, sh, nshards, stride, cstride, nstep))
+    core.pmap(ctx, _chunk, jobs, nchunks=len(jobs))
     ctx.extra["scenarios"] = len(scn)
-    ctx.extra["scenario_need_bytes"] = {k: v["N"] for k, v in sorted(info.items())[:12]}
-    ctx.extra["bytes_swept"] = sum(tops.values())
     ctx.rule = (
         "%d scenario models (mixed / spheres / chain with limits+frictionloss+equalities+tendon+sensors / islands / clump of "
         "multi-geom bodies) x cone{pyramidal,elliptic} x island{on,off} x (solver,jacobian) lattice; for each model and each "
         "build (asan, rel) every arena size 0..N+pad in steps of 4 bytes (1 byte for models needing <= %d bytes in thorough), "
-        "N = measured maxuse_arena, pad grown until the last 64 sizes are fault-free; %d mj_step + 1 further step per size. "
+        "N = measured maxuse_arena, pad grown (by the driver) until the last 64 sizes are fault-free; %d mj_step + 1 further step per size. "
         "non-trivial = a size at which the fault manifested (CONTACTFULL/CNSTRFULL warning, caught mju_error, or crash)"
         % (len(scn), small, nstep))
     ctx.assumptions = [
